@@ -39,17 +39,88 @@ def udp_datagram(src, dst, sport, dport, payload, bad_csum=False):
     return hdr[:6] + struct.pack("!H", c) + payload
 
 
-def ip_packet(src, dst, proto, l4, ident=0, ttl=64):
+def ip_packet(src, dst, proto, l4, ident=0, ttl=64, opts=b"", ext=()):
+    """opts: IPv4 options (a multiple of 4 bytes; the header length field grows with them); ext: IPv6 extension headers as (type, option bytes) in chain
+    order (hop-by-hop 0, destination options 60, routing 43 ...), each padded with PadN to a multiple of 8 bytes; the fixed header's Next Header names the
+    first of them and the last one names the transport protocol (RFC 8200 section 4)"""
     if len(src) == 4:
-        hdr = struct.pack("!BBHHHBBH4s4s", 0x45, 0, 20 + len(l4), ident & 0xFFFF, 0x4000, ttl, proto, 0, src, dst)
+        assert len(opts) % 4 == 0 and len(opts) <= 40
+        hdr = struct.pack("!BBHHHBBH4s4s", 0x40 | (5 + len(opts) // 4), 0, 20 + len(opts) + len(l4), ident & 0xFFFF, 0x4000, ttl, proto, 0, src, dst) + opts
         c = csum16(hdr)
         return hdr[:10] + struct.pack("!H", c) + hdr[12:] + l4
-    return struct.pack("!IHBB16s16s", 0x60000000, len(l4), proto, ttl, src, dst) + l4
+    chain = b""
+    types = [t for t, _ in ext] + [proto]
+    for i, (_t, body) in enumerate(ext):
+        pad = (-(2 + len(body))) % 8
+        if pad == 1:
+            body = body + b"\x00"                                    # Pad1
+        elif pad:
+            body = body + bytes([1, pad - 2]) + bytes(pad - 2)       # PadN
+        chain += bytes([types[i + 1], (2 + len(body)) // 8 - 1]) + body
+    return struct.pack("!IHBB16s16s", 0x60000000, len(chain) + len(l4), types[0], ttl, src, dst) + chain + l4
 
 
-def eth_frame(smac, dmac, ip):
+def eth_frame(smac, dmac, ip, vlan=()):
+    """vlan: 802.1Q / 802.1ad tags as (TPID, TCI) from the outermost inwards"""
     et = 0x0800 if ip[0] >> 4 == 4 else 0x86DD
-    return dmac + smac + struct.pack("!H", et) + ip
+    tags = b"".join(struct.pack("!HH", tpid, tci) for tpid, tci in vlan)
+    return dmac + smac + tags + struct.pack("!H", et) + ip
+
+
+class Encap:
+    """how an endpoint pair's packets are wrapped below the transport layer: VLAN tags, IPv4 options, IPv6 extension headers (all legitimate, all
+    irrelevant to what is exported); the default is the plain 14 + 20/40 byte layout"""
+    __slots__ = ("vlan", "opts", "ext")
+
+    def __init__(self, vlan=(), opts=b"", ext=()):
+        self.vlan, self.opts, self.ext = tuple(vlan), opts, tuple(ext)
+
+    def __bool__(self):
+        return bool(self.vlan or self.opts or self.ext)
+
+    def describe(self):
+        return "+".join((["vlan%d" % len(self.vlan)] if self.vlan else []) + (["ip4opts%d" % len(self.opts)] if self.opts else [])
+                        + (["ip6ext" + "-".join(str(t) for t, _ in self.ext)] if self.ext else [])) or "plain"
+
+
+PLAIN = Encap()
+
+
+def random_encap(rng, v6):
+    vlan = ()
+    r = rng.random()
+    if r < 0.35:
+        vlan = ((0x8100, rng.randrange(0, 1 << 16)),)
+    elif r < 0.5:
+        vlan = ((0x88A8, rng.randrange(0, 1 << 16)), (0x8100, rng.randrange(0, 1 << 16)))       # QinQ
+    opts, ext = b"", ()
+    if rng.random() < 0.7:
+        if v6:
+            hbh = (0, rng.choice([b"", bytes([0x05, 2, 0, 0]), bytes([0x1E, 4]) + rng.randbytes(4)]))              # nothing / router alert / an experimental skip-over option
+            dst = (60, rng.choice([b"", bytes([0x1E, 6]) + rng.randbytes(6), bytes([0x1E, 12]) + rng.randbytes(12)]))
+            ext = rng.choice([(hbh,), (dst,), (hbh, dst), (dst, dst)])
+        else:
+            opts = rng.choice([b"\x01\x01\x01\x00", b"\x94\x04\x00\x00", b"\x01\x01\x01\x01\x94\x04\x00\x00",                     # NOPs+EOL, router alert
+                               b"\x44\x0c\x05\x00" + bytes(8), b"\x07\x27\x04" + bytes(36) + b"\x00"])                               # timestamp, record route filling all 40 bytes
+    return Encap(vlan, opts, ext)
+
+
+def locate(fr):
+    """(l3 offset, l4 offset, end of the IP datagram, transport protocol, is_v6) of a frame built by eth_frame/ip_packet with any Encap"""
+    o = 12
+    while fr[o:o + 2] in (b"\x81\x00", b"\x88\xa8"):
+        o += 4
+    et = fr[o:o + 2]
+    o += 2
+    if et == b"\x08\x00":
+        ihl = (fr[o] & 0x0F) * 4
+        return o, o + ihl, o + int.from_bytes(fr[o + 2:o + 4], "big"), fr[o + 9], False
+    assert et == b"\x86\xdd", et
+    end = o + 40 + int.from_bytes(fr[o + 4:o + 6], "big")
+    nxt, q = fr[o + 6], o + 40
+    while nxt in (0, 43, 60):
+        nxt, q = fr[q], q + 8 * (fr[q + 1] + 1)
+    return o, q, end, nxt, True
 
 
 # ------------------------------------------------------------------ capture files
@@ -124,6 +195,62 @@ def pcapng(items, le=True, tsresol=None, tsoffset=None, snaplen=262144, junk_blo
     if seclen:      # the section header states the real length of the section (octets behind the SHB) instead of -1 "unspecified"
         n = sum(len(b) for b in out[1:])
         out[0] = _block(0x0A0D0D0A, struct.pack(e + "IHHq", 0x1A2B3C4D, 1, 0, n) + shb_opts, e)
+    return b"".join(out)
+
+
+def _ticks(ts_us, tsresol, tsoffset):
+    den = 10 ** 6 if tsresol is None else (2 ** (tsresol & 0x7F) if tsresol & 0x80 else 10 ** tsresol)
+    if tsoffset:
+        ts_us -= tsoffset * 10 ** 6
+    ticks, rem = divmod(ts_us * den, 10 ** 6)
+    assert rem == 0, "timestamp not representable at this resolution"
+    assert ticks >= 0, "timestamp before the interface offset"
+    return int(ticks)
+
+
+def pcapng_multi(items, ifaces, assign, le=True, sections=1, late_idb=False, obsolete_pb=False):
+    """The same packet list as a capture of several interfaces (what dumpcap -i a -i b or mergecap write): ifaces = [(if_tsresol or None, if_tsoffset or None), ...],
+    assign(n) -> interface index of the n-th packet.  Every packet's timestamp is written in the units of ITS interface (pcapng 4.2: resolution and offset are
+    per-interface options).  sections > 1: the list is split into that many sections of one file, each with its own section header and interface descriptions (the
+    interface list rotated by one from section to section, ids start at 0 again); late_idb: an interface description is written just in front of the first packet
+    of the section that refers to it instead of at the top of the section (allowed: 'before any block that refers to it')."""
+    e = "<" if le else ">"
+    out = []
+    pkt_idx = [i for i, it in enumerate(items) if it[0] == "pkt"]
+    bounds = [0] + [pkt_idx[len(pkt_idx) * k // sections] if pkt_idx else 0 for k in range(1, sections)] + [len(items)]
+    n = 0
+    for sec in range(sections):
+        order = [(k + sec) % len(ifaces) for k in range(len(ifaces))]           # position in this section's interface list -> index into ifaces
+        out.append(_block(0x0A0D0D0A, struct.pack(e + "IHHq", 0x1A2B3C4D, 1, 0, -1), e))
+
+        def idb(k):
+            res, off = ifaces[k]
+            opts = (_opt(9, bytes([res]), e) if res is not None else b"") + (_opt(14, struct.pack(e + "q", off), e) if off is not None else b"")
+            return _block(1, struct.pack(e + "HHI", 1, 0, 262144) + _opt(2, b"if%d" % k, e) + opts + _opt(0, b"", e), e)
+        described = 0
+        if not late_idb:
+            out += [idb(k) for k in order]
+            described = len(order)
+        for it in items[bounds[sec]:bounds[sec + 1]]:
+            if it[0] == "pkt":
+                _, ts_us, frame = it
+                k = assign(n) % len(ifaces)
+                pos = order.index(k)
+                while described <= pos:                                         # ids are positions in order of description: describe everything up to the one needed
+                    out.append(idb(order[described]))
+                    described += 1
+                t = _ticks(ts_us, *ifaces[k])
+                if obsolete_pb and n % 3 == 1:
+                    out.append(_block(2, struct.pack(e + "HHIIII", pos, 0, t >> 32, t & 0xFFFFFFFF, len(frame), len(frame)) + frame, e))
+                else:
+                    out.append(_block(6, struct.pack(e + "IIIII", pos, t >> 32, t & 0xFFFFFFFF, len(frame), len(frame)) + frame, e))
+                n += 1
+            elif it[0] == "dsb":
+                out.append(_block(10, struct.pack(e + "II", 0x544C534B, len(it[1])) + it[1], e))
+            elif it[0] == "raw":
+                out.append(_block(it[1], it[2], e))
+        if described == 0:
+            out.append(idb(order[0]))                                           # a section without packets still describes an interface
     return b"".join(out)
 
 
